@@ -299,6 +299,22 @@ def canonicalise(tree: ast.Module, level=None, relpath: str = None) -> ast.Modul
             for i, st in enumerate(blk):
               if isinstance(st, ast.AnnAssign) and st.value is not None:
                 blk[i] = ast.copy_location(ast.Assign(targets=[st.target], value=st.value, type_comment=None), st)
+    # C13: `if c: r = a  else: r = b` for the result variable of an inlined helper (guard-clause returns) is `r = a if c else b`
+    for holder in list(ast.walk(tree)):
+      for fld in ('body', 'orelse', 'finalbody'):
+        blk = getattr(holder, fld, None)
+        if not isinstance(blk, list):
+          continue
+        for i, st in enumerate(blk):
+          if (isinstance(st, ast.If) and len(st.body) == 1 and len(st.orelse) == 1 and all(
+              isinstance(b, ast.Assign) and len(b.targets) == 1 and isinstance(b.targets[0], ast.Name) for b in (st.body[0], st.orelse[0]))
+              and st.body[0].targets[0].id == st.orelse[0].targets[0].id and st.body[0].targets[0].id.startswith('ret__i')
+              and not any(isinstance(x, ast.Name) and x.id == st.body[0].targets[0].id for x in ast.walk(st.test))):
+            new = ast.Assign(targets=[st.body[0].targets[0]],
+                             value=ast.IfExp(test=st.test, body=st.body[0].value, orelse=st.orelse[0].value), type_comment=None)
+            ast.copy_location(new, st.body[0])
+            ast.copy_location(new.value, st)
+            blk[i] = new
     # C12: x[0:n] is x[:n]
     for sl in [n for n in ast.walk(tree) if isinstance(n, ast.Slice)]:
       if isinstance(sl.lower, ast.Constant) and sl.lower.value == 0 and not isinstance(sl.lower.value, bool):
